@@ -73,6 +73,12 @@ def one(ctx, rng, xr):
         dconv = "either"
     nf, nd = 3, 4
     E = rng.random((2, n, nf, nd)) + np.arange(n)[None, :, None, None]
+    if rng.random() < 0.15:
+        # spectra stored as integers (counts, packed values opened without scaling): "missing" still has to be expressible
+        # (the smallest value of station i is i itself, as for the real-valued spectra: the monitors identify stations by it)
+        E = 64 * rng.integers(0, 30, size=E.shape) + np.arange(n)[None, :, None, None]
+        E[0, :, 0, 0] = np.arange(n)
+        E = E.astype(str(rng.choice(["int16", "int32", "int64"])))
     ds = xr.Dataset({"efth": (("time", "site", "freq", "dir"), E)},
                     coords={"time": [0, 1], "site": np.arange(n) + 10, "freq": [0.1, 0.2, 0.3], "dir": [0.0, 90.0, 180.0, 270.0]})
     sdt = str(rng.choice(["float64", "float64", "float64", "float32"]))   # lattice values are exact in float32 too
@@ -282,7 +288,9 @@ def idw(rec, key, det, ds, slon, slat, qlon, qlat, qconv, tol, kw, rng, E, qarg)
         rec.skip("idw", "a station at exactly the tolerance or a tie at the max_sites cut")
         return
     gap = None
-    if rng.random() < 0.25:
+    if E.dtype.kind == "i":
+        key += "|int-spectra"
+    if E.dtype.kind != "i" and rng.random() < 0.25:
         # a missing record (time 1) at one station: wherever that station is used, the combination is missing at that time
         gap = int(rng.integers(len(slon)))
         E = E.copy()
